@@ -80,7 +80,7 @@ def build_tree(P, M, M2, core_all, init_kind, sub_init_kind, plain_kind):
         "own": f"def zeta():\n    return '{M}.zeta'\n\n\ndef eta():\n    return '{M}.eta'\n",
     }[plain_kind]
     other = (f"def alpha():\n    return '{M2}.alpha'\n\n\ndef beta():\n    return '{M2}.beta'\n\n\ndef delta():\n    return '{M2}.delta'\n\n\n"
-             f"def zeta():\n    return '{M2}.zeta'\n\n\nKAPPA = ('{M2}', 'KAPPA')\n")
+             f"def zeta():\n    return '{M2}.zeta'\n\n\nKAPPA = ('{M2}', 'KAPPA')\n\n\ndef _private():\n    return '{M2}._private'\n\n\ndef open():\n    return '{M2}.open'\n")
     extra = (f"import {M2}\nimport json as js\nfrom .core import alpha, KAPPA as KAPPA2\nfrom . import core\nfrom .sub.deep import delta as delta2\n\n\n"
              f"def theta():\n    return '{P}.extra.theta'\n")
     files = {f"{P}/extra.py": extra, f"{P}/__init__.py": init, f"{P}/core.py": core, f"{P}/sub/__init__.py": sub_init, f"{P}/sub/deep.py": deep, f"{M}.py": plain, f"{M2}.py": other}
@@ -124,6 +124,9 @@ def import_items(P, M, M2, relative, init_kind="named"):
         (f"from {M2} import alpha", ["alpha"], "same-name-other-object"),
         (f"from {M2} import alpha, beta, delta, zeta, KAPPA", ["alpha", "beta", "delta", "zeta", "KAPPA"], "same-name-other-object"),
         (f"from {M2} import *", ["alpha", "zeta"], "same-name-other-object"),
+        (f"from {P}.core import _private", ["_private"], "underscore-name"),
+        (f"from {M2} import _private", ["_private"], "underscore-name"),
+        (f"from {M2} import open", ["open"], "builtin-name"),
         (f"try:\n    from {M} import zeta_missing as opt\nexcept ImportError:\n    opt = None", ["opt"], "optional-import-idiom"),
         (f"import {M}\ntry:\n    from {M} import zeta_missing\nexcept ImportError:\n    pass", [f"{M}.zeta"], "optional-import-idiom"),
         ("import os", ["os.path.join", "os.sep"], "stdlib"),
@@ -174,12 +177,20 @@ def cases(draw):
     later = []
     for stmt, uses, form in chosen:
         forms.add(form)
-        place = draw(st.sampled_from(["top", "top", "top", "function", "after-def", "if", "try", "unused", "twice", "after-own-def"]))
+        place = draw(st.sampled_from(["top", "top", "top", "function", "after-def", "if", "try", "unused", "twice", "after-own-def", "rebound"]))
+        if form == "builtin-name":
+            place = draw(st.sampled_from(["function", "function", "top"]))
         if "try:" in stmt:
             place = "top" if place not in ("after-def",) else place
         used = draw(st.lists(st.sampled_from(uses), min_size=1, max_size=len(uses), unique=True))
         use_lines = [f"RESULT.append({u})" for u in used]
-        if place == "top":
+        if place == "rebound" and stmt.startswith("import ") and " as " not in stmt and "," not in stmt and "\n" not in stmt:
+            # the same plain import twice, with the name bound to something else in between
+            bound = stmt.split()[1].split(".")[0]
+            lines += [stmt, f"{bound} = None", f"RESULT.append({bound})", stmt]
+            later += use_lines
+            forms.add("rebound-between-duplicates")
+        elif place == "top":
             lines.append(stmt)
             later += use_lines
         elif place == "twice":
@@ -194,6 +205,8 @@ def cases(draw):
             lines += [f"def fn_{k}():", f"    {stmt}", f"    return ({', '.join(used)},)", ""]
             later.append(f"RESULT.extend(fn_{k}())")
             forms.add("inside-function")
+            if form == "builtin-name":
+                later.append("RESULT.append(open)")  # the builtin, as long as the import stays in its function
         elif place == "after-own-def" and "*" not in stmt and all("." not in u for u in used):
             # the client defines the name itself first; the import rebinds it later
             for u in used:
